@@ -918,6 +918,7 @@ def run(ctx):
                                 "backoff sleep, reconnect, interval sleep) for the covered task sets")
 
     infos, _outs = evaluate(ctx, cases)
+    run_transport_reconnect(ctx)
     ctx.traces_validated += 2 * len(infos)
     if infos:
         for k in (0, len(infos) // 2, -1):
@@ -1110,6 +1111,97 @@ def judge_multi(ctx, case, r, mo, tids):
                                  spec_violated=False)
 
 
+# ------------------------------------------------------------------ BaseTransport.reconnect(timeout) against a target whose connect fails
+
+RC_CONNECT = 0.05
+RC_CAP = 120.0
+
+
+async def rc_scenario(timeout, outs, dflt):
+    """the real BaseTransport.reconnect(timeout) over a transport whose k-th connection attempt ends as scripted (o accepted, C refused,
+    T TimeoutError, O OSError; `dflt` for every later one) -> (result, completed attempts, elapsed virtual ms); capped at RC_CAP virtual seconds"""
+    from gallia.transports.base import BaseTransport, TargetURI
+    st = {"n": 0}
+
+    class Flaky(BaseTransport, scheme="flaky"):
+        @classmethod
+        async def connect(cls, target, timeout=None):
+            await asyncio.sleep(RC_CONNECT)
+            k = st["n"]
+            st["n"] += 1
+            res = outs[k] if k < len(outs) else dflt
+            if res == "C":
+                raise ConnectionRefusedError("scripted")
+            if res == "T":
+                raise TimeoutError("scripted")
+            if res == "O":
+                raise OSError(113, "scripted: no route to host")
+            return cls(target if not isinstance(target, str) else TargetURI(target))
+
+        async def close(self):
+            self.is_closed = True
+
+        async def write(self, data, timeout=None, tags=None):
+            raise NotImplementedError
+
+        async def read(self, timeout=None, tags=None):
+            raise NotImplementedError
+
+    t = Flaky(TargetURI("flaky://target"))
+    loop = asyncio.get_event_loop()
+    t0 = loop.time()
+    task = asyncio.ensure_future(t.reconnect(timeout))
+    _done, pending = await asyncio.wait([task], timeout=RC_CAP)
+    if pending:
+        task.cancel()
+        await asyncio.wait([task])
+        return ("never-returns", st["n"], ms(RC_CAP))
+    el = ms(loop.time() - t0)
+    try:
+        task.result()
+        return ("connected", st["n"], el)
+    except ConnectionError:
+        return ("C", st["n"], el)
+    except TimeoutError:
+        return ("T", st["n"], el)
+    except OSError:
+        return ("O", st["n"], el)
+    except Exception as e:
+        return ("exc:" + type(e).__name__, st["n"], el)
+
+
+def run_transport_reconnect(ctx):
+    """every outcome stream of length <= 3 over {accepted, refused, TimeoutError, OSError} x what follows {accepted, refused forever} x
+    timeout {None (what the client passes), 5 deadlines}: result, number of attempts and elapsed time must be the model's"""
+    cases = []
+    for tmo in (None, 0.12, 0.25, 0.52, 1.01, 1.99):  # deadlines that do not coincide with the end of an attempt or of a retry sleep
+        for dflt in "oC":
+            for n in range(4):
+                for outs in itertools.product("oCTO", repeat=n):
+                    cases.append((tmo, "".join(outs), dflt))
+    lines = [f"trc {'none' if t is None else ms(t)} {ms(RC_CONNECT)} {d} {o or '-'}" for t, o, d in cases]
+    out = ctx.lean(lines)
+    for (tmo, outs, dflt), mo in zip(cases, out):
+        ctx.ev()
+        ctx.kind("transport-reconnect", "no-timeout" if tmo is None else "deadline")
+        case = {"transport_reconnect": {"timeout": tmo, "outcomes": outs, "later": dflt, "connect_s": RC_CONNECT}}
+        try:
+            impl, _vt = vrun(rc_scenario(tmo, outs, dflt), horizon=1e5)
+        except Stall as e:
+            impl = ("stall", 0, 0)
+        m = mo.split()
+        model = ("T" if m[0] == "deadline" else m[0], int(m[1]), int(m[2])) if len(m) == 3 and m[1].isdigit() else (mo, 0, 0)
+        if tuple(impl) != model:
+            ctx.disagree(f"reconnect:transport:{impl[0]}-where-model-{model[0]}",
+                         f"BaseTransport.reconnect(timeout={tmo}) against connection outcomes {outs or '-'} then {dflt} forever (one attempt takes "
+                         f"{RC_CONNECT}s): real code -> {impl} (result, attempts, ms; capped at {RC_CAP:.0f} virtual seconds), model -> {model} "
+                         f"[{mo}]", case, impl=list(impl), model=mo, spec_violated=False, site="BaseTransport.reconnect vs Model/TransportReconnect.lean")
+        ctx.nontrivial(f"trc {tmo} {outs} {dflt}")
+    ctx.traces_validated += len(cases)
+    ctx.exhaustive_parts.append("BaseTransport.reconnect(timeout): every connection-outcome stream of length <= 3 over {accepted, refused, TimeoutError, "
+                                "OSError} x {accepted, refused forever} afterwards x timeout {None, 0.12, 0.25, 0.52, 1.01, 1.99 s}: result, attempts, time")
+
+
 def search(ctx):
     ctx.widened = True
     run(ctx)
@@ -1164,6 +1256,24 @@ def replay(ctx, payload):
     if finding is None:
         return int(replaylib.obligations(mod, payload))
     case = finding["case"]
+    if "transport_reconnect" in case:
+        tc = case["transport_reconnect"]
+        tmo, outs, dflt = tc["timeout"], tc["outcomes"], tc["later"]
+        print(f"case    : BaseTransport.reconnect(timeout={tmo}); connection attempts end as {outs or '-'} (o accepted, C refused, T TimeoutError, "
+              f"O OSError), every later one as {dflt}; one attempt takes {RC_CONNECT}s")
+        try:
+            impl, _vt = vrun(rc_scenario(tmo, outs, dflt), horizon=1e5)
+        except Stall as e:
+            impl = ("stall", 0, 0)
+        mo = ctx.lean([f"trc {'none' if tmo is None else ms(tmo)} {ms(RC_CONNECT)} {dflt} {outs or '-'}"])[0]
+        print(f"impl : (result, completed attempts, elapsed virtual ms) = {tuple(impl)}   [capped at {RC_CAP:.0f} virtual seconds]")
+        print(f"model: {mo}")
+        m = mo.split()
+        model = ("T" if m[0] == "deadline" else m[0], int(m[1]), int(m[2])) if len(m) == 3 and m[1].isdigit() else (mo, 0, 0)
+        if tuple(impl) != model:
+            ctx.disagree(f"reconnect:transport:{impl[0]}-where-model-{model[0]}", f"real code -> {tuple(impl)}, model -> {model}", case,
+                         impl=list(impl), model=mo, spec_violated=False, site="BaseTransport.reconnect vs Model/TransportReconnect.lean")
+        return replaylib.verdict(ctx, finding, _clause)
     spec = _spec_from_json(case["spec"])
     cancel_at = tuple(case["cancel_at"]) if case.get("cancel_at") else None
     print("case    : " + "; ".join(_fmt_task(d) for d in spec["tasks"]))
